@@ -3,6 +3,7 @@ import OtelVerif.Lemmas.C08Json
 import OtelVerif.Lemmas.C08Dec
 import OtelVerif.Lemmas.C08Mig
 import OtelVerif.Lemmas.C08Txt
+import OtelVerif.Lemmas.C08Api
 import OtelVerif.Gen.OtlpSchema
 /-!
 # C08 — OTLP protobuf and JSON codecs are lossless, consistent and total
@@ -432,6 +433,70 @@ theorem C08_json_bad_id_rejected (S : Schema) (T : Txt) (D : List Val) (m : Nat)
   rw [fromJ_step S T D m acc k _ tl hit hkey hfind]
   simp [slotRead, hty, halt, hcard, C08_json_id_wrong_length S T n b h0 hl]
 
+
+/-! ## the size formula of the generated code -/
+
+/-- **`sovX(x) = (bits.Len64(x|1)+6)/7` is the varint byte count**, for every `x`: the `sov` summands of `C08_size` are the
+formula the generated `Size()` evaluates (`bitLen` = `bits.Len64`). -/
+theorem C08_sov_formula (n : Nat) : sovBits n = sov n ∧ sovBits n = (varint n).length := by
+  rw [sovBits_eq_sov, varint_length]; exact ⟨rfl, rfl⟩
+
+/-! ## payloads built through the public API: the OTLP instances without side hypotheses -/
+
+set_option maxRecDepth 100000 in
+/-- regenerated reader tables: every field that is not a `Deprecated*` repeated list has its `case` (both in a one-of or plain) -/
+theorem C08_api_cov : covOk otlp = true := by decide +kernel
+
+set_option maxRecDepth 100000 in
+/-- wherever a message has field 1000 it is a `Deprecated*` repeated list and field 2 is a repeated list -/
+theorem C08_api_mig_shape : migShapeOk otlp = true := by decide +kernel
+
+set_option maxRecDepth 100000 in
+/-- every root on which some decode path migrates starts with the repeated resource list -/
+theorem C08_api_roots : otlp.roots.all (fun rm => !(migratesPb rm.1 || migratesJson rm.1) ||
+    (match otlp.slots rm.2 with | .one f :: _ => f.card == .rep | _ => false)) = true := by decide +kernel
+
+/-- **`jcov` is derived**: a payload built through the public API is JSON-representable, for every schema whose readers cover
+all non-deprecated fields. -/
+theorem C08_api_jcov (S : Schema) (hcov : covOk S = true) (m : Nat) (v : Val)
+    (ha : apiVal S (.slots (S.slots m)) v = true) : jcov S m (.slots (S.slots m)) v = true :=
+  jcov_of_apiVal S (fun m s hs => covOk_mem hcov m s hs) m _ v ha (fun s hs => covOk_mem hcov m s hs)
+
+/-- **JSON round trip for OTLP, no side hypothesis**: every payload built through the public pdata API (`ApiBuilt`: canonical,
+`Deprecated*` never populated because no accessor reaches it, bytes are bytes) of every signal / wrapper message comes back
+from `UnmarshalJSON(MarshalJSON(v))` as `v` with NaNs canonicalised. -/
+theorem C08_json_roundtrip_otlp_api (T : Txt) (hT : TxtLaws T) (m : Nat) (v : Val) (h : ApiBuilt otlp m v) :
+    fromJson otlp T otlpD m (toJson otlp T m v) = some (normV otlp (.slots (otlp.slots m)) v) :=
+  C08_json_roundtrip_otlp T hT m v h.1 (C08_api_jcov otlp C08_api_cov m v h.2)
+
+/-- **All public entry points, both codecs, no side hypothesis**: for every root of the regenerated schema (the four payloads,
+the four export requests, the four export responses) and every payload built through the public API, the protobuf entry point
+returns the payload and the JSON entry point returns it with NaNs canonicalised — `otlp.Migrate*`, which every decode path
+now runs, is a no-op on such payloads (derived, not assumed). -/
+theorem C08_wrappers_otlp_api (T : Txt) (hT : TxtLaws T) (root : String) (m : Nat) (hroot : (root, m) ∈ otlp.roots)
+    (v : Val) (h : ApiBuilt otlp m v) (hlen : (encode otlp m v).length < 2 ^ 63) :
+    decodeRoot otlp otlpD root m (encode otlp m v) = some v ∧
+    fromJsonRoot otlp T otlpD root m (toJson otlp T m v) = some (normV otlp (.slots (otlp.slots m)) v) := by
+  have hr := C08_api_roots
+  simp only [List.all_eq_true] at hr
+  have hrm := hr (root, m) hroot
+  simp only [Bool.or_eq_true, Bool.not_eq_true', Bool.or_eq_false_iff] at hrm
+  have hfirst : (migratesPb root = true ∨ migratesJson root = true) →
+      ∀ f rest, otlp.slots m = .one f :: rest → f.card = .rep := by
+    intro hmig f rest hs
+    rcases hrm with ⟨h1, h2⟩ | h3
+    · rcases hmig with hh | hh
+      · rw [h1] at hh; cases hh
+      · rw [h2] at hh; cases hh
+    · rw [hs] at h3; simpa using h3
+  constructor
+  · exact C08_wrappers_pb otlp otlpD C08_schema_wf root m v h.1 hlen
+      (fun hm => migrate_noop_api otlp C08_api_mig_shape m v (hfirst (Or.inl hm)) h.1 h.2)
+  · exact C08_wrappers_json otlp otlpD T C08_schema_wf C08_json_wf hT root m v h.1
+      (C08_api_jcov otlp C08_api_cov m v h.2)
+      (fun hm => migrate_noop_api otlp C08_api_mig_shape m _ (hfirst (Or.inr hm))
+        (conf_normV otlp _ v h.1) (apiVal_normV otlp _ v h.2))
+
 /-! ## non-vacuity: a small schema using every slot discipline, a conforming value with extreme numerics -/
 def S0 : Schema := { msgs := [
   { name := "t.Inner", slots := [.one { num := 1, go := "A", json := "a", orig := "a", ty := .u64 }], jsonKeys := ["a"] },
@@ -450,6 +515,10 @@ def v0 : Val := Val.ofList [.num (2 ^ 32 - 1), Val.ofList [.num 300], Val.ofList
 example : WF S0 (defaults S0) = true := by decide
 example : Conforms S0 1 v0 := by
   simp [Conforms, v0, S0, Schema.slots, Val.ofList, conf, leafOk, scalarOk, packedOk, findAlt]
+example : covOk S0 = true ∧ JWF S0 = true ∧ migShapeOk S0 = true := by decide
+example : ApiBuilt S0 1 v0 :=
+  ⟨by simp [Conforms, v0, S0, Schema.slots, Val.ofList, conf, leafOk, scalarOk, packedOk, findAlt],
+   by simp [v0, S0, Schema.slots, Val.ofList, apiVal, findAlt, isDep, Val.isCons]⟩
 example : decode S0 (defaults S0) 1 (encode S0 1 v0) = some v0 :=
   C08_pb_roundtrip S0 (defaults S0) (by decide) 1 v0
     (by simp [Conforms, v0, S0, Schema.slots, Val.ofList, conf, leafOk, scalarOk, packedOk, findAlt])
